@@ -73,3 +73,47 @@ pub open spec fn value_at(m: MappingAtomicType, k: Seq<char>, defs: Defs, r: Sem
         }
     }
 }
+
+// ---- `intersect_mapping` (mapping.rs:13-63): the index-signature part of the meet of two object atoms
+// `IndexedPropertiesAtomic` is the real definition, placed outside verus! (take-ext): this Verus cannot attach a
+// specification to a derived non-Copy Clone declared inside verus!. T2: the derived Clone returns an equal value
+#[verifier::external_type_specification]
+pub struct ExIndexedPropertiesAtomic(IndexedPropertiesAtomic);
+pub assume_specification[ <IndexedPropertiesAtomic as Clone>::clone ](x: &IndexedPropertiesAtomic) -> (r: IndexedPropertiesAtomic)
+    ensures r == *x;
+// R26 / R27: the union of two key sets and its iteration; no contract - nothing is claimed about the per-key part
+#[verifier::external_body]
+fn vset_union<'a, T: Ord>(a: &'a BTreeSet<T>, b: &'a BTreeSet<T>) -> (r: BTreeSet<&'a T>)
+{ a.union(b).collect::<BTreeSet<_>>() }
+#[verifier::external_body]
+fn vset_to_vec<T: Ord>(s: BTreeSet<T>) -> (r: Vec<T>)
+{ s.into_iter().collect() }
+pub open spec fn inter_res(a: SemType, b: SemType, d: SemType) -> bool {
+    (all_in_val(a.all) ==> all_in_val(d.all))
+    && (wf(a) && wf(b) && flat(a) && flat(b) ==> wf(d) && flat(d) && forall|v: Val| #[trigger] mem(d, v) == (mem(a, v) && mem(b, v)))
+}
+// two signatures meet in the first one's key type (the code requires the two key types to be the same type, else Err) and
+// the intersection of the value types; a single signature is kept as it is (C05-20, C05-32: it was lost); none gives none
+pub open spec fn ip_meet(a: Option<IndexedPropertiesAtomic>, b: Option<IndexedPropertiesAtomic>, r: Option<IndexedPropertiesAtomic>) -> bool {
+    match (a, b) {
+        (Some(p1), Some(p2)) => r is Some && r->0.key == p1.key && inter_res(*p1.value, *p2.value, *r->0.value),
+        (None, Some(p)) => r == Some(p),
+        (Some(p), None) => r == Some(p),
+        (None, None) => r is None,
+    }
+}
+pub open spec fn keys_same(a: Option<IndexedPropertiesAtomic>, b: Option<IndexedPropertiesAtomic>, defs: Defs) -> bool {
+    match (a, b) {
+        (Some(p1), Some(p2)) => exists|d1: SemType, d2: SemType| diff_res(*p1.key, *p2.key, d1) && diff_res(*p2.key, *p1.key, d2)
+            && #[trigger] sem_empty(d1, defs) && #[trigger] sem_empty(d2, defs),
+        _ => true,
+    }
+}
+// R10 here: `acc.into_iter().collect()` collects the vector of (key, type) pairs into the atom's map; no contract (per-key part)
+pub trait VCollectMap<K, V> {
+    fn vcollect(self) -> (r: BTreeMap<K, V>);
+}
+impl<K: Ord, V> VCollectMap<K, V> for Vec<(K, V)> {
+    #[verifier::external_body]
+    fn vcollect(self) -> (r: BTreeMap<K, V>) { self.into_iter().collect() }
+}
